@@ -1,10 +1,12 @@
 package pcache
 
 import (
+	"math"
 	"os"
 	"testing"
 
 	"pgregory.net/rapid"
+	"verif/elem"
 	"verif/vk"
 )
 
@@ -25,6 +27,41 @@ func genCOp(kinds []string) *rapid.Generator[COp] {
 		}
 		return op
 	})
+}
+
+// bigLimits: the limits of the cases with BigLimit: both sides of every power
+// of two at which an integer of another width, a float64 mantissa or "half of
+// the int64 range" ends, and the top of the range.
+var bigLimits = []int64{math.MaxInt64, 1<<62 + 1, 1 << 62, math.MaxInt64 - 1, 1<<62 - 1, math.MaxInt64 - 1<<20, 3 << 61, 1<<53 + 1, 1<<32 + 1,
+	5 << 60, 7 << 60, 1 << 61, 1 << 53, 1 << 32, 1 << 31, 1<<31 - 1}
+
+// drawBig turns c into a case whose limit and sizes are huge numbers (see
+// CacheCase.BigLimit).  Everything is constructed: whatever is drawn here is a
+// legal case, the interpreter (fitBig) keeps the sums inside int64.
+func drawBig(t *rapid.T, c *CacheCase) {
+	if c.Elem == elem.Str || c.Elem == elem.Bytes {
+		c.Elem = rapid.SampledFrom([]string{"", elem.Ptr, elem.Any, elem.Wide}).Draw(t, "bigElem")
+	}
+	c.SizeMode = rapid.SampledFrom([]string{"val", "val", "val", "val", "val", "val", "val", "val", "val", "unit"}).Draw(t, "bigSizeMode")
+	l := rapid.SampledFrom(bigLimits).Draw(t, "bigLimit")
+	switch rapid.IntRange(0, 5).Draw(t, "bigLimitKind") {
+	case 0:
+		l = rapid.Int64Range(1<<31, math.MaxInt64).Draw(t, "bigLimitAny")
+	case 1:
+		l -= rapid.Int64Range(0, 3).Draw(t, "bigLimitBelow")
+	}
+	c.BigLimit = l
+	n := int64(c.Limit)
+	units := []int64{l / n, l / n, l / n, l/n + 1, l/2 + 1, l/3 + 1, l - 1, l}
+	for _, u := range []int64{1 << 30, 1 << 52, 1 << 58, 1 << 59, 3 << 59, 1 << 60, 3 << 60, 1 << 61, 1 << 62} {
+		if u <= l {
+			units = append(units, u)
+		}
+	}
+	c.Unit = rapid.SampledFrom(units).Draw(t, "bigUnit")
+	if rapid.IntRange(0, 7).Draw(t, "bigUnitAny") == 0 {
+		c.Unit = rapid.Int64Range(1, l).Draw(t, "bigUnitAnyValue")
+	}
 }
 
 func genCacheCase(t *rapid.T) CacheCase {
@@ -103,6 +140,11 @@ func genCacheCase(t *rapid.T) CacheCase {
 			pre = append(pre, COp{Kind: "putNew", K: c.Limit + 3 + j, S: 1})
 		}
 		c.Ops = append(pre, c.Ops...)
+	}
+	// Drawn last, so that the other cases are the ones they were before this
+	// existed.
+	if vk.Rare(t, "big", 12) {
+		drawBig(t, &c)
 	}
 	return c
 }
